@@ -7,12 +7,21 @@ Read from the *live* objects of $GALLIA_REPO (nothing is parsed from text):
     response code of an accepted negative response)
   * `UDSIsoServicesEchoLength`                        -> echoLength : List (service id, number of echoed bytes)
     (the heuristic `RawPositiveResponse.matches` uses for positive replies without a typed class)
+
+Read from the AST of helpers.py / core/client.py (declarative facts the byte-level client model relies on):
+  * the code lists of `suggests_service_not_supported` / `suggests_sub_function_not_supported` /
+    `suggests_identifier_not_supported` (names resolved through the live `UDSErrorCodes`)  -> suggests* : List Nat
+  * the guard of `raise_for_error` and the callee it raises                                -> raiseForErrorShape
+  * the last statements of `parse_pdu` (trigger_request bookkeeping)                       -> parsePduTail
+  * every assignment to `resp` / `raw_resp` in `UDSClient.request_unsafe` with "inside the ResponsePending loop" -> respAssignments,
+    rawAssignments; the top-level statements of that loop                                  -> pendingLoopBody
 """
+import ast
 import sys
 from pathlib import Path
 
 sys.path.insert(0, str(Path(__file__).resolve().parent))
-from _util import die, lean_nat_list, lean_str, use_repo, write_lean  # noqa: E402
+from _util import REPO, die, lean_nat_list, lean_str, use_repo, write_lean  # noqa: E402
 
 use_repo()
 try:
@@ -21,6 +30,84 @@ try:
     from gallia.services.uds import helpers as H
 except Exception as e:  # pragma: no cover
     die(f"cannot import gallia.services.uds core modules: {e!r}")
+
+
+def _fn(tree, name, cls=None):
+    body = tree.body
+    if cls is not None:
+        c = next((n for n in body if isinstance(n, ast.ClassDef) and n.name == cls), None)
+        if c is None:
+            die(f"class {cls}")
+        body = c.body
+    f = next((n for n in body if isinstance(n, (ast.FunctionDef, ast.AsyncFunctionDef)) and n.name == name), None)
+    if f is None:
+        die(f"function {name}")
+    return f
+
+
+def suggests_list(tree, name):
+    """the literal list handed to _suggests_not_supported by `name`, resolved through the live enum"""
+    f = _fn(tree, name)
+    rets = [n for n in f.body if isinstance(n, ast.Return)]
+    if len(f.body) != 1 or len(rets) != 1:
+        die(f"{name}: body is not a single return")
+    call = rets[0].value
+    if not (isinstance(call, ast.Call) and getattr(call.func, "id", "") == "_suggests_not_supported" and len(call.args) == 2
+            and isinstance(call.args[0], ast.Name) and call.args[0].id == f.args.args[0].arg and isinstance(call.args[1], ast.List)):
+        die(f"{name}: return _suggests_not_supported(response, [..])")
+    out = []
+    for e in call.args[1].elts:
+        if not (isinstance(e, ast.Attribute) and isinstance(e.value, ast.Name) and e.value.id == "UDSErrorCodes"):
+            die(f"{name}: list element {ast.unparse(e)}")
+        try:
+            out.append(int(C.UDSErrorCodes[e.attr]))
+        except KeyError:
+            die(f"{name}: UDSErrorCodes.{e.attr}")
+    return out
+
+
+def ast_facts():
+    hsrc = REPO / "src" / "gallia" / "services" / "uds" / "helpers.py"
+    csrc = REPO / "src" / "gallia" / "services" / "uds" / "core" / "client.py"
+    if not hsrc.exists() or not csrc.exists():
+        die("helpers.py / core/client.py")
+    ht, ct = ast.parse(hsrc.read_text()), ast.parse(csrc.read_text())
+    sugg = {n: suggests_list(ht, n) for n in ("suggests_service_not_supported", "suggests_sub_function_not_supported",
+                                              "suggests_identifier_not_supported")}
+    # _suggests_not_supported itself: statements, unparsed (docstring-free)
+    sns = [ast.unparse(n) for n in _fn(ht, "_suggests_not_supported").body]
+    rfe = [ast.unparse(n) for n in _fn(ht, "raise_for_error").body]
+    rfm = [ast.unparse(n) for n in _fn(ht, "raise_for_mismatch").body]
+    tail = [ast.unparse(n) for n in _fn(ht, "parse_pdu").body[-2:]]
+    ru = _fn(ct, "request_unsafe", "UDSClient")
+    whiles = [n for n in ast.walk(ru) if isinstance(n, ast.While)]
+    if len(whiles) != 1:
+        die("request_unsafe: exactly one while loop (ResponsePending)")
+    inside = {id(n) for n in ast.walk(whiles[0])}
+    resp_as, raw_as = [], []
+    for n in ast.walk(ru):
+        if isinstance(n, ast.Assign) and len(n.targets) == 1 and isinstance(n.targets[0], ast.Name):
+            if n.targets[0].id == "resp":
+                resp_as.append((n.lineno, ast.unparse(n.value), id(n) in inside))
+            if n.targets[0].id == "raw_resp":
+                raw_as.append((n.lineno, ast.unparse(n.value), id(n) in inside))
+        elif isinstance(n, (ast.AugAssign, ast.AnnAssign, ast.NamedExpr)) and getattr(n.target, "id", "") in ("resp", "raw_resp"):
+            die("request_unsafe: resp / raw_resp bound by something other than a plain assignment")
+    if not resp_as or not raw_as:
+        die("request_unsafe: assignments to resp / raw_resp")
+
+    def kind(n):
+        if isinstance(n, ast.Assign) and len(n.targets) == 1:
+            return "Assign:" + ast.unparse(n.targets[0])
+        if isinstance(n, ast.AugAssign):
+            return "AugAssign:" + ast.unparse(n.target)
+        return type(n).__name__
+    loop_body = [kind(n) for n in whiles[0].body]
+    return sugg, sns, rfe, rfm, tail, [(v, w) for _, v, w in sorted(resp_as)], [(v, w) for _, v, w in sorted(raw_as)], loop_body, ast.unparse(whiles[0].test)
+
+
+def lean_str_list(xs):
+    return "[" + ", ".join(lean_str(x) for x in xs) + "]"
 
 
 def main():
@@ -43,6 +130,8 @@ def main():
     echo = sorted((int(k), int(v)) for k, v in C.UDSIsoServicesEchoLength.items())
     if not codes or not rows or not echo:
         die("empty table")
+    sugg, sns, rfe, rfm, tail, resp_as, raw_as, loop_body, loop_test = ast_facts()
+    b = lambda x: "true" if x else "false"  # noqa: E731
     body = ["namespace Gallia.Gen.C03Tables", "",
             "/-- values of `UDSErrorCodes` -/",
             f"def errorCodes : List Nat := {lean_nat_list(codes)}", "",
@@ -52,6 +141,25 @@ def main():
             "]", "",
             "/-- `UDSIsoServicesEchoLength`: (request service id, number of echoed bytes after the service id) -/",
             "def echoLength : List (Nat × Nat) := [" + ", ".join(f"({k}, {v})" for k, v in echo) + "]", "",
+            "/-- the code list of `suggests_service_not_supported` (helpers.py, by AST; names resolved through the live enum) -/",
+            f"def suggestsService : List Nat := {lean_nat_list(sugg['suggests_service_not_supported'])}",
+            "/-- … of `suggests_sub_function_not_supported` -/",
+            f"def suggestsSubFunction : List Nat := {lean_nat_list(sugg['suggests_sub_function_not_supported'])}",
+            "/-- … of `suggests_identifier_not_supported` -/",
+            f"def suggestsIdentifier : List Nat := {lean_nat_list(sugg['suggests_identifier_not_supported'])}", "",
+            "/-- statements of `_suggests_not_supported`, `raise_for_error`, `raise_for_mismatch` (unparsed) -/",
+            f"def suggestsNotSupportedBody : List String := {lean_str_list(sns)}",
+            f"def raiseForErrorBody : List String := {lean_str_list(rfe)}",
+            f"def raiseForMismatchBody : List String := {lean_str_list(rfm)}", "",
+            "/-- the last two statements of `parse_pdu`: the accepted response is bound to the request, then returned -/",
+            f"def parsePduTail : List String := {lean_str_list(tail)}", "",
+            "/-- every assignment to `resp` in `UDSClient.request_unsafe`: (value, inside the ResponsePending loop) -/",
+            "def respAssignments : List (String × Bool) := [" + ", ".join(f"({lean_str(v)}, {b(w)})" for v, w in resp_as) + "]",
+            "/-- every assignment to `raw_resp` in `UDSClient.request_unsafe` -/",
+            "def rawAssignments : List (String × Bool) := [" + ", ".join(f"({lean_str(v)}, {b(w)})" for v, w in raw_as) + "]",
+            "/-- test and top-level statements of the ResponsePending loop -/",
+            f"def pendingLoopTest : String := {lean_str(loop_test)}",
+            f"def pendingLoopBody : List String := {lean_str_list(loop_body)}", "",
             "end Gallia.Gen.C03Tables"]
     write_lean("C03Tables", "\n".join(body) + "\n")
 
